@@ -277,7 +277,13 @@ def run(ctx, idx):
     d, r = res["NormalizeCat"]
     sel = [x for x in r.selstores if x[1] is not None and isinstance(x[3], Scal)]
     con = "%s.execute::category-equality" % d.key
-    us = [f for name_ in CONVERSIONS for f in res[name_][1].findings if f[0] == "unsorted-search"]
+    us = [f for f in r.findings if f[0] == "unsorted-search"]
+    for name_ in CONVERSIONS:
+        if name_ == "NormalizeCat":
+            continue
+        d_, r_ = res[name_]
+        for f_ in [f for f in r_.findings if f[0] == "unsorted-search"][:1]:
+            ctx.violate("C08.k", "%s.execute::bisection-needs-a-sorted-table" % d_.key, d_.module.rel, f_[1], f_[2])
     if us:
         ctx.violate("C08.k", con, d.module.rel, us[0][1], us[0][2] + " - the documented lookup does not depend on the order of the table")
     elif not sel:
